@@ -1229,6 +1229,10 @@ func (dsc *dataStoreCommand) lpop(keyName string, count int) (values [][]byte, e
 		return
 	}
 
+	if count > list.count {
+		// never more than the list holds (the count comes from the client and may be huge)
+		count = list.count
+	}
 	values = make([][]byte, 0, count)
 
 	for ; count > 0; count-- {
@@ -1334,6 +1338,10 @@ func (dsc *dataStoreCommand) rpop(keyName string, count int) (values [][]byte, e
 		return
 	}
 
+	if count > list.count {
+		// never more than the list holds (the count comes from the client and may be huge)
+		count = list.count
+	}
 	values = make([][]byte, 0, count)
 
 	for ; count > 0; count-- {
